@@ -19,4 +19,9 @@ CHECKS = {
         "text": "Decides the structural clauses of logmath.c: every log-add table read is dominated by 0 <= d < table_size with d unchanged in between; the widths the initialiser can choose {1,2,4} are exactly the labels of all three width switches and each case accesses the table through an unsigned element pointer of that width, allocation count equals table_size; logmath_add is symmetric under exchanging its arguments (zero short-circuits mirrored and first, (d,r) = (x-y,x)/(y-x,y)); every result is r or r + unsigned entry; log() is guarded by p > 0; log/exp and ln/log10 conversions use matching constants and opposite shift directions; sizing and filling passes of the table builder compute the same value, decay and stop test. Accuracy to half a unit and the log 2 bound are numerical and not decided.",
         "design_ref": "DESIGN.md section 4, C19",
     },
+    "C01": {
+        "technique": "custom static analysis over clang AST+CFG facts: argument provenance (reaching definitions + canonical forms with sound forward substitution) at every history-entry creation and HMM entry, guard dominance with edge refinement for the final-state constraint, iterator root/step classification of back-trace loops, writer census over the whole library",
+        "text": "Decides the path-connectivity obligations that make the history table a tree of grammar paths and the back-trace a walk in it: null propagation, cross-word and within-tree transitions and word exits pass links, states, predecessor indices, frames and contexts that belong to the same history entry / lextree node (O1-O4); every store selecting the exit entry is control-dependent on (!final || to_state == final_state) of the entry at the stored index and 'nothing selected' returns -1 (O7); all four back-trace loops start at the exit, fetch the entry at the walk index and continue with its pred (O8); entry creation stores its parameters unmodified (O9); only fsg_history_entry_add writes entries (O10); final is FALSE from start and TRUE only in finish (O11); per-frame phase order. Does not decide that pruning keeps a path alive, nor completeness of the stored null closure.",
+        "design_ref": "DESIGN.md section 4, C01",
+    },
 }
